@@ -68,6 +68,9 @@ pub enum Op {
     /// (commit, path): put one path back, uncommitted, to the state it had in an earlier commit -
     /// old bytes restored, a since-added file deleted again, a since-deleted file re-created
     RevertTo(u16, u16),
+    /// `git reset --soft <earlier commit>`: HEAD (and the branch) move back to an ancestor; index
+    /// and work tree stay as they are
+    ResetSoft(u16),
 }
 
 pub const BIG_SIZES: [usize; 9] = [
@@ -145,6 +148,8 @@ pub struct Hist {
     pub old_mtime: bool,
     pub empty_file: bool,
     pub copied: bool,
+    /// HEAD was moved back to this commit (`ResetSoft`) and nothing has been committed since
+    pub head_override: Option<usize>,
 }
 
 fn is_sentinel(p: &str) -> bool {
@@ -179,6 +184,7 @@ impl Hist {
             old_mtime: false,
             empty_file: false,
             copied: false,
+            head_override: None,
         };
         // initial content: whatever install_config wrote plus a few ordinary files
         for p in HOT {
@@ -204,7 +210,7 @@ impl Hist {
     }
 
     pub fn head(&self) -> usize {
-        self.commits.len() - 1
+        self.head_override.unwrap_or(self.commits.len() - 1)
     }
     pub fn head_sha(&self) -> &str {
         &self.commits[self.head()].0
@@ -241,6 +247,7 @@ impl Hist {
         self.env.git_ok(&["commit", "-q", "--allow-empty", "-m", &msg])?;
         let sha = self.env.git_ok(&["rev-parse", "HEAD"])?.trim().to_string();
         self.commits.push((sha, self.index.clone()));
+        self.head_override = None;
         Ok(())
     }
 
@@ -360,6 +367,16 @@ impl Hist {
             Op::PackRefs => {
                 self.env.git_ok(&["pack-refs", "--all"])?;
                 "pack-refs".into()
+            }
+            Op::ResetSoft(k) => {
+                if self.commits.len() < 2 {
+                    return Ok("noop".into());
+                }
+                let c = pick(*k, self.commits.len() - 1);
+                let sha = self.commits[c].0.clone();
+                self.env.git_ok(&["reset", "-q", "--soft", &sha])?;
+                self.head_override = Some(c);
+                format!("reset --soft to commit #{}", c)
             }
             Op::Restore(f) => {
                 // (never monorail's own files under the out directory, when that is not ignored)
